@@ -57,6 +57,9 @@ class BaseCase:
     def brief(self, plan: dict[str, Any]) -> Any:
         return plan
 
+    def fixed_plans(self, tier: str) -> list[dict[str, Any]]:
+        return []
+
     def legal(self, plan: dict[str, Any]) -> bool:
         return True
 
